@@ -96,7 +96,10 @@ def check(model: Model, run: Run) -> None:
             cml = Loc(model, cm)
             for a_ in walk_no_nested(lp):
                 if isinstance(a_, ast.Assign) and norm(a_.targets[0]) == '%s.previous' % v_ and cml.expand(a_.value) in ('self._previous_neighbors.get(%s)' % k_, 'self._previous_neighbors[%s]' % k_):
-                    linked = True
+                    # ... for EVERY neighbor that existed before: the only conditions are that it did exist
+                    allowed = {'self._previous_neighbors.get(%s) is not None' % k_, 'self._previous_neighbors.get(%s)' % k_, '%s in self._previous_neighbors' % k_}
+                    if facts(cml, a_) <= allowed:
+                        linked = True
     run.check('self.neighbors = self.neighbor.neighbors' in t and linked, cm.qualname, 'installs the parsed neighbors and links each to its previous version', cm.loc(), 'the route delta is computed against neighbor.previous')
     # reload(): the catch-alls turn an exception into a False result
     arms = [h for n in walk_no_nested(rel.node) if isinstance(n, ast.Try) for h in n.handlers]
